@@ -279,7 +279,8 @@ def generate(rng, tier, profile='default'):
         pick = (rng.choice(same_len) if rng.random() < 0.93
                 else rng.randrange(len(series)))
         ops.append({'op': 'set_x', 'o': o, 's': pick,
-                    'as': rng.choice(('list', 'array', 'array', 'tuple'))})
+                    'as': rng.choice(('list', 'array', 'array', 'tuple',
+                                      'pyarray', 'series'))})
       elif r2 < 0.33:
         ops.append({'op': 'clear_x', 'o': o})
       elif r2 < 0.42:
@@ -323,11 +324,34 @@ def _decode_series(s):
 
 
 def _container(np, vals, how):
+  """The caller's container: list, tuple, ndarray, or another buffer exporter
+  that numpy can wrap WITHOUT copying (array.array, pandas Series)."""
   if how == 'array':
     return np.array(vals)
   if how == 'tuple':
     return tuple(vals)
+  if how in ('pyarray', 'series') and all(
+      isinstance(v, float) for v in vals):
+    if how == 'pyarray':
+      import array  # pylint: disable=g-import-not-at-top
+      return array.array('d', vals)
+    import pandas as pd  # pylint: disable=g-import-not-at-top
+    return pd.Series(np.array(vals))
   return list(vals)
+
+
+def _scribble(container, pos, value):
+  """The caller writes into its own container; False if it cannot."""
+  try:
+    if hasattr(container, 'iloc'):
+      container.iloc[pos % len(container)] = float(value)
+    elif hasattr(container, 'dtype'):
+      container[pos % len(container)] = container.dtype.type(value)
+    else:
+      container[pos % len(container)] = float(value)
+    return True
+  except (OverflowError, ValueError, TypeError):
+    return False
 
 
 def _bad_value(np, how, n):
@@ -522,12 +546,12 @@ def execute(desc):
         n_assign += 1
         if which == 'x':
           t.x = np.array(vals)
-          t.caller_x = value if op.get('as') == 'array' else None
+          t.caller_x = value if not isinstance(value, (list, tuple)) else None
           t.alias_x = False
         else:
           t.y = np.array(vals)
           t.x = None
-          t.caller_y = value if op.get('as') == 'array' else None
+          t.caller_y = value if not isinstance(value, (list, tuple)) else None
           t.caller_x = None
           t.alias_y = False
           t.alias_x = False
@@ -557,19 +581,10 @@ def execute(desc):
         raised = None
       except Exception as e:  # pylint: disable=broad-except
         raised = e
-      f = fresh(t.y, t.x, t.pk)
-      try:
-        do_iadd(f)
-        f_raised = None
-      except Exception as e:  # pylint: disable=broad-except
-        f_raised = e
-      if type(raised) is not type(f_raised):  # pylint: disable=unidiomatic-typecheck
-        viol = core.violation(
-            PROPERTY, 'D3', step, kind,
-            'an augmented assignment ends differently from the same one on a '
-            'fresh object', expected=core.canon(f_raised),
-            got=core.canon(raised))
-        break
+      # Whether `+=` is ACCEPTED is not C08's business (an implementation may
+      # hand out read-only arrays from a fresh object and writable ones from a
+      # deep copy of it): the model follows what the object did.  C08 only
+      # says that what it reports afterwards is not stale.
       if raised is None:
         new = np.array(cur)
         new += d
@@ -590,6 +605,13 @@ def execute(desc):
         if not isinstance(raised, (TypeError, ValueError)):
           stats['skipped']['iadd_failed_oddly'] = 1
           break
+        # refused: the in-place half may or may not have happened before the
+        # refusal, so "current series" is what the object itself reports
+        if cur is not None:
+          if which == 'x':
+            t.alias_x = True
+          else:
+            t.alias_y = True
       ev = [step, kind, op.get('o', 0), which, core.canon(raised)]
       absig.append((kind, op.get('o', 0), which))
     elif kind == 'clear_x':
@@ -648,12 +670,7 @@ def execute(desc):
     elif kind == 'caller_mutates':
       arr = t.caller_x if op['which'] == 'x' else t.caller_y
       if arr is not None and len(arr):
-        pos = op['pos'] % len(arr)
-        try:
-          arr[pos] = arr.dtype.type(op['v'])
-          wrote = True
-        except (OverflowError, ValueError, TypeError):
-          wrote = False          # e.g. a negative value into a uint64 array
+        wrote = _scribble(arr, op['pos'], op['v'])
         if wrote:
           if op['which'] == 'x':
             t.alias_x = True
